@@ -1,0 +1,147 @@
+//go:build verif
+
+// Verification hooks. Compiled only with `-tags verif`. They are thin exporters: every
+// function calls the existing pipeline code and returns its data; no pipeline logic is
+// re-implemented here.
+
+package distiller
+
+import (
+	"fmt"
+	nurl "net/url"
+	"sort"
+
+	"github.com/go-shiori/dom"
+	"github.com/markusmobius/go-domdistiller/internal/extractor"
+	"github.com/markusmobius/go-domdistiller/internal/label"
+	"github.com/markusmobius/go-domdistiller/internal/webdoc"
+	"golang.org/x/net/html"
+)
+
+// VerifNode is one member of a Text element's node window.
+type VerifNode struct {
+	Type int    // html.NodeType
+	Data string // text data / tag name
+	Vid  string // data-vid attribute (elements only)
+}
+
+// VerifElem is a dump of one webdoc.Element.
+type VerifElem struct {
+	Kind      string // text, tag, image, figure, video, embed, table
+	IsContent bool
+	Title     bool
+	Labels    []string
+	Nodes     []VerifNode
+	Group     int
+	NumWords  int
+	NumLinked int
+	TagLevel  int
+	Offset    int
+	Text      string
+	TagName   string
+	TagStart  bool
+	ElemVid   string
+	HTML      string
+	Caption   string
+	EmbedType string
+	EmbedID   string
+}
+
+// verifCaptureLogger implements logutil.Logger and records every line.
+type verifCaptureLogger struct {
+	flags      LogFlag
+	Extraction []string
+	Visibility []string
+	Pagination []string
+	Timing     []string
+}
+
+func (l *verifCaptureLogger) IsLogExtraction() bool { return l.flags&LogExtraction != 0 }
+func (l *verifCaptureLogger) IsLogVisibility() bool { return l.flags&LogVisibility != 0 }
+func (l *verifCaptureLogger) IsLogPagination() bool { return l.flags&LogPagination != 0 }
+func (l *verifCaptureLogger) IsLogTiming() bool     { return l.flags&LogTiming != 0 }
+func (l *verifCaptureLogger) PrintExtractionInfo(args ...interface{}) {
+	l.Extraction = append(l.Extraction, fmt.Sprint(args...))
+}
+func (l *verifCaptureLogger) PrintVisibilityInfo(args ...interface{}) {
+	l.Visibility = append(l.Visibility, fmt.Sprint(args...))
+}
+func (l *verifCaptureLogger) PrintPaginationInfo(args ...interface{}) {
+	l.Pagination = append(l.Pagination, fmt.Sprint(args...))
+}
+func (l *verifCaptureLogger) PrintTimingInfo(args ...interface{}) {
+	l.Timing = append(l.Timing, fmt.Sprint(args...))
+}
+
+func verifVid(n *html.Node) string {
+	if n == nil || n.Type != html.ElementNode {
+		return ""
+	}
+	return dom.GetAttribute(n, "data-vid")
+}
+
+// VerifDumpDoc dumps the element list of a document (read-only).
+func VerifDumpDoc(doc *webdoc.Document) []VerifElem {
+	out := make([]VerifElem, 0, len(doc.Elements))
+	for _, e := range doc.Elements {
+		ve := VerifElem{Kind: e.ElementType(), IsContent: e.IsContent()}
+		switch x := e.(type) {
+		case *webdoc.Text:
+			ve.Title = x.HasLabel(label.Title)
+			for l := range x.Labels {
+				ve.Labels = append(ve.Labels, l)
+			}
+			sort.Strings(ve.Labels)
+			for _, n := range x.GetTextNodes() {
+				ve.Nodes = append(ve.Nodes, VerifNode{Type: int(n.Type), Data: n.Data, Vid: verifVid(n)})
+			}
+			ve.Group, ve.NumWords, ve.NumLinked = x.GroupNumber, x.NumWords, x.NumLinkedWords
+			ve.TagLevel, ve.Offset, ve.Text = x.TagLevel, x.OffsetBlock, x.Text
+		case *webdoc.Tag:
+			ve.TagName, ve.TagStart = x.Name, x.Type == webdoc.TagStart
+		case *webdoc.Figure:
+			ve.ElemVid, ve.HTML = verifVid(x.Element), dom.OuterHTML(x.Element)
+			if x.Caption != nil {
+				ve.Caption = dom.OuterHTML(x.Caption)
+			}
+		case *webdoc.Image:
+			ve.ElemVid, ve.HTML = verifVid(x.Element), dom.OuterHTML(x.Element)
+		case *webdoc.Video:
+			ve.ElemVid, ve.HTML = verifVid(x.Element), dom.OuterHTML(x.Element)
+		case *webdoc.Table:
+			ve.ElemVid, ve.HTML = verifVid(x.Element), dom.OuterHTML(x.Element)
+		case *webdoc.Embed:
+			ve.ElemVid, ve.HTML = verifVid(x.Element), dom.OuterHTML(x.Element)
+			ve.EmbedType, ve.EmbedID = x.Type, x.ID
+		}
+		out = append(out, ve)
+	}
+	return out
+}
+
+// VerifExtractResult is what the real ContentExtractor.ExtractContent produced.
+type VerifExtractResult struct {
+	Elems      []VerifElem
+	WordCount  int
+	ImageURLs  []string
+	Visibility []string // captured visibility log lines (table reasons, image scores, ...)
+	Extraction []string
+	Doc        *webdoc.Document
+}
+
+// VerifExtract runs the real content extractor (both passes and the three document filters)
+// exactly as Apply does and dumps the final element list. Root selection is the caller's
+// business: root must be an element.
+func VerifExtract(root *html.Node, pageURL *nurl.URL, flags LogFlag) *VerifExtractResult {
+	lg := &verifCaptureLogger{flags: flags}
+	ce := extractor.NewContentExtractor(root, pageURL, lg)
+	doc, wc := ce.ExtractContent()
+	return &VerifExtractResult{
+		Elems:      VerifDumpDoc(doc),
+		WordCount:  wc,
+		ImageURLs:  ce.ImageURLs,
+		Visibility: lg.Visibility,
+		Extraction: lg.Extraction,
+		Doc:        doc,
+	}
+}
